@@ -784,6 +784,8 @@ class map_async(Stream):
     def update(self, x, who=None, metadata=None):
         if not self.work_task:
             self.work_task = self._create_work_task()
+        # hold the reference from the moment the element is accepted
+        self._retain_refs(metadata)
         return self._create_task(self._insert_job(x, metadata))
 
     @overload
@@ -829,7 +831,6 @@ class map_async(Stream):
             coro = self.func(x, *self.args, **self.kwargs)
             task = self._create_task(coro)
             await self.work_queue.put((task, metadata))
-            self._retain_refs(metadata)
         except Exception as e:
             logger.exception(e)
             raise
